@@ -249,28 +249,78 @@ def run(ctx):
             cases[i] = (c[0], None if kv["expect"] == "-" else int(kv["expect"]),
                         None if kv["expectrr"] == "-" else int(kv["expectrr"]), c[3], c[4])
     cases = [c if c[1] != "?" else (c[0], None, None, c[3], c[4]) for c in cases]
+    # ---- the ENTRY POINT and the two boolean settings are inputs too ----
+    # every case above went through build() with warnings_are_errors(false) and error_on_conflicts at its default (true).
+    # Second pass: the same grammars through the deprecated but public process_file() (it copies the builder field by
+    # field and then calls build()) and through build(), with warnings_are_errors x error_on_conflicts varied.  The
+    # number of grammar warnings is known from the first pass: warnings_are_errors(true) is only combined with grammars
+    # without warnings (with warnings such a build fails for a reason outside this clause).
+    base = [c + ("build", 0, 1) for c in cases]
+    extra = []
+    combos = [(0, 1), (1, 0), (0, 0), (1, 1)]
+    for i, (c, cl) in enumerate(zip(cases, ct)):
+        if not cl.startswith("CT "):
+            continue
+        kv = dict(x.split("=", 1) for x in cl.split()[2:])
+        nowarn = kv.get("warn") == "0"
+        if replay:
+            todo = [(api, w, e) for api in ("pf", "build") for (w, e) in combos if (api, w, e) != ("build", 0, 1)]
+        else:
+            w, e = combos[i % 4]
+            todo = [("pf", w, e)]
+            if i % 3 == 0:
+                todo.append(("build",) + combos[1 + (i // 3) % 3])
+            if i % 5 == 0:
+                todo.append(("pf",) + combos[(i // 5 + 2) % 4])
+        for api, w, e in todo:
+            if w and not nowarn:
+                w = 0
+                if (api, w, e) == ("build", 0, 1):
+                    continue
+            extra.append(c + (api, w, e))
+    extra = list(dict.fromkeys(extra))
+    ct2 = core.run_lines([exe_ct], ["%s api=%s wae=%d eoc=%d" % (dump_case(c[0]), c[5], c[6], c[7]) for c in extra])
+    cases = base + extra
+    ct = list(ct) + list(ct2)
     mo = core.run_lines([mexe, "expect"], ["%s %s %d %d" % ("-" if c[1] is None else c[1], "-" if c[2] is None else c[2], c[3], c[4])
                                           for c in cases])
     n_known = 0
-    for (src, e, err, sr, rr), cl, ml in zip(cases, ct, mo):
+    by_setting = {}
+    for (src, e, err, sr, rr, api, wae, eoc), cl, ml in zip(cases, ct, mo):
         f = cl.split()
         if not cl.startswith("CT "):
             ctx.count("expect_case_not_built")
             continue
         kv = dict(x.split("=", 1) for x in f[2:])
         verdict = f[1]
-        spec_ok = "spec=1" in ml
-        mirror_ok = "mirror=1" in ml
+        entry = "CTParserBuilder::process_file()" if api == "pf" else "CTParserBuilder::build()"
+        setting = "%s warnings_are_errors=%d error_on_conflicts=%d" % ("process_file" if api == "pf" else "build", wae, eoc)
+        if wae and kv.get("warn") != "0":
+            ctx.count("expect_case_outside_clause_warnings_are_errors")
+            continue
+        # error_on_conflicts(false) is the documented switch that turns the %expect comparison off
+        rule_ok = "spec=1" in ml
+        spec_ok = rule_ok or not eoc
+        mirror_ok = "mirror=1" in ml or not eoc
         consistent = (int(kv["sr"]), int(kv["rr"])) == (sr, rr) and kv["expect"] == ("-" if e is None else str(e)) \
-            and kv["expectrr"] == ("-" if err is None else str(err))
+            and kv["expectrr"] == ("-" if err is None else str(err)) \
+            and (kv.get("api"), kv.get("wae"), kv.get("eoc")) == (api if api == "pf" else "build", str(wae), str(eoc))
         good = consistent and verdict in ("ok", "err") and (verdict == "ok") == spec_ok
         known_class = consistent and verdict == "ok" and not spec_ok and (sr, rr) == (0, 0) and mirror_ok
         ctx.count("expect_build_" + verdict)
+        by_setting[setting] = by_setting.get(setting, 0) + 1
+        cls = ("conflicts_match_expect" if rule_ok else "conflicts_differ_from_expect") if (sr, rr) != (0, 0) else \
+              ("conflict_free_expect_ok" if rule_ok else "conflict_free_expect_nonzero")
+        ctx.count("expect_%s_%s" % ("process_file" if api == "pf" else "build", cls))
         if not good:
-            data = {"what": "CTParserBuilder::build() %s although the conflict counts (sr=%d, rr=%d) %s %%expect=%s %%expect-rr=%s (default 0)"
-                            % ("succeeds" if verdict == "ok" else "fails (%s)" % verdict, sr, rr,
-                               "equal" if spec_ok else "differ from", e, err),
-                    "grammar": src, "harness": cl[:160], "model": ml,
+            data = {"what": "%s %s although the conflict counts (sr=%d, rr=%d) %s %%expect=%s %%expect-rr=%s (default 0)%s"
+                            % (entry, "succeeds" if verdict == "ok" else "fails (%s)" % verdict, sr, rr,
+                               "equal" if rule_ok else "differ from", e, err,
+                               "" if eoc else " and error_on_conflicts(false) switches the comparison off"),
+                    "grammar": src, "entry_point": entry,
+                    "settings": {"warnings_are_errors": bool(wae), "error_on_conflicts": bool(eoc),
+                                 "grammar_warnings": kv.get("warn")},
+                    "harness": cl[:200], "model": ml,
                     "mirror_of_ctbuilder_agrees_with_implementation": (verdict == "ok") == mirror_ok}
             if known_class:
                 n_known += 1
@@ -280,10 +330,11 @@ def run(ctx):
                 ctx.violation(data)
         if (verdict == "ok") != mirror_ok and not good:
             # (build_ok_mirror models the known defect; an implementation that follows the rule instead is fine)
-            ctx.violation({"what": "CTParserBuilder::build() follows neither the %expect rule nor the mirror of ctbuilder.rs:905-929",
-                           "grammar": src, "harness": cl[:160], "model": ml}, no_input=False)
+            ctx.violation({"what": "%s follows neither the %%expect rule nor the mirror of ctbuilder.rs:905-929" % entry,
+                           "grammar": src, "settings": setting, "harness": cl[:200], "model": ml}, no_input=False)
         ctx.oblige(good or known_class)
-        ctx.case("expect:" + src, True, None)
+        ctx.case("expect:%s:%s" % (setting, src), True, None)
+    ctx.coverage["expect_builds_by_entry_point_and_settings"] = dict(sorted(by_setting.items()))
     ctx.coverage["cells_compared"] = tot["cells"]
     ctx.coverage["conflict_resolution_histogram"] = res_hist
     ctx.coverage["reported_conflicts_compared"] = {"shift_reduce": tot["sr_reported"], "reduce_reduce": tot["rr_reported"],
@@ -297,12 +348,19 @@ def run(ctx):
                             "%prec, mixed statement/expression grammars, accept/reduce shapes, shared expr/nullable families, "
                             "fixed witnesses; every cell (state x token) of every table is compared; non-trivial = at least one "
                             "cell with two or more candidates (resolution changes a cell); distinct by grammar text; %expect "
-                            "variants: equal, +-1, absent, present with true count 0")
+                            "variants: equal, +-1, absent, present with true count 0; every %expect case runs through build() with "
+                            "warnings_are_errors(false)/error_on_conflicts(true), and again through the deprecated "
+                            "process_file() (plus a share through build()) with warnings_are_errors x error_on_conflicts "
+                            "varied (warnings_are_errors(true) only on grammars without warnings); expected outcome = "
+                            "build_ok_spec when error_on_conflicts, success otherwise")
     ctx.assumptions += ["the item sets / lookaheads / edges the cells are re-derived from are the implementation's own "
                         "(their correctness is C01/C02/C16's subject); C03 decides resolution and reporting on top of them",
                         "for k > 2 reduce/reduce candidates the property text does not fix which pairs are reported: count, "
                         "membership, x<y and 'every loser exactly once as second component' are demanded",
-                        "CTParserBuilder is run with warnings_are_errors(false) so that unused pseudo tokens do not fail the build; "
+                        "warnings_are_errors(true) is only combined with grammars for which the public AST reports no warning (a "
+                        "build that fails for a warning is outside the clause); error_on_conflicts(false) is the documented "
+                        "switch that turns the %expect comparison off: such builds are expected to succeed; "
+                        "process_file_in_src() (current_dir/src + OUT_DIR wrapper around process_file()) is not run; "
                         "only source generation is run, nothing is compiled",
                         "accept/reduce construction errors are confirmed on the canonical LR(1) automaton (extracted canon_lr1) "
                         "because the state graph of a failed construction is not observable through the public API"]
